@@ -53,7 +53,7 @@ fn bad_header(rng: &mut Rng, key: &[u8]) -> Frame {
         1 => f.opcode = *rng.pick(&[0x25u8, 0x26, 0x40, 0x80, 0xff, 0x1b, 0x1f]),
         2 => f.datatype = *rng.pick(&[1u8, 0x80, 0xff]),
         3 => {
-            f.key = vec![b'k'; 251];
+            f.key = vec![b'k'; *rng.pick(&[251usize, 251, 256, 300, 0x1fa, 1000])];
         }
         4 => {
             f.extras = vec![0; 21];
@@ -778,7 +778,8 @@ pub fn run_grid(r: &mut Runner, seed: u64, count: u64) -> StreamStats {
     let mut rng = Rng::new(seed ^ 0x6a1d);
     let mut st = StreamStats { streams: 0, cases: 0, kinds: BTreeMap::new(), distinct: Default::default(), samples: vec![] };
     let opcodes: Vec<u8> = (0u8..=0x26).chain([0x40u8, 0x7f, 0x80, 0xff]).collect();
-    let keylens: [u16; 6] = [0, 1, 5, 250, 251, 65535];
+    // above 250: also lengths whose low byte alone would pass (256, 300, 0x1fa, 1000, 0xff00)
+    let keylens: [u16; 12] = [0, 1, 5, 250, 251, 255, 256, 300, 0x1fa, 1000, 0xff00, 65535];
     let extras: [u8; 7] = [0, 4, 8, 12, 20, 21, 255];
     for case_no in 0..count {
         if case_no % 8 == 7 {
